@@ -17,7 +17,7 @@ theorem reforming_atJdn (R : Int) (hR : InI32 R) (c : Calendar)
     (hc : Calendar.mkReforming R = .ok c) (j : Int) :
     ∃ d, c.atJdn? j = some d ∧ d.jdn = j ∧ IsDateR R j d.year d.month d.day
       ∧ (d.isJulian = true ↔ j < R) ∧ (d.isGregorian = true ↔ R ≤ j) := by
-  obtain ⟨rf, rfl, rfl⟩ := mk_reform R hR c hc
+  obtain ⟨rf, rfl, rfl, _⟩ := mk_reform R hR c hc
   obtain ⟨d, h, hcal, hj, hd⟩ := atJdn_total rf.cal (Or.inr (Or.inr ⟨rf.R, hR, hc⟩)) j
   refine ⟨d, h, hj, ?_, ?_, ?_⟩
   · simpa [IsDateR, Reform.cal, ruleAt] using hd
@@ -29,7 +29,7 @@ day R-1 and day R -/
 theorem boundary_dates (R : Int) (hR : InI32 R) (c : Calendar) (hc : Calendar.mkReforming R = .ok c) :
     c.lastJulianDate = c.atJdn? (R - 1) ∧ c.firstGregorianDate = c.atJdn? R
     ∧ c.lastJulianDate ≠ none ∧ c.firstGregorianDate ≠ none := by
-  obtain ⟨rf, rfl, rfl⟩ := mk_reform R hR c hc
+  obtain ⟨rf, rfl, rfl, _⟩ := mk_reform R hR c hc
   refine ⟨rf.lastJulianDate_eq, rf.firstGregorianDate_eq, ?_, ?_⟩ <;>
     simp [Reform.cal, Calendar.lastJulianDate, Calendar.firstGregorianDate]
 
@@ -40,7 +40,7 @@ theorem skips_forward (R : Int) (hR : InI32 R) (c : Calendar) (hc : Calendar.mkR
       ∧ (dJ.year < dG.year
           ∨ (dJ.year = dG.year ∧ (dJ.month.number < dG.month.number
               ∨ (dJ.month = dG.month ∧ dJ.day + 2 ≤ dG.day)))) := by
-  obtain ⟨rf, rfl, rfl⟩ := mk_reform R hR c hc
+  obtain ⟨rf, rfl, rfl, _⟩ := mk_reform R hR c hc
   exact ⟨_, _, rfl, rfl, rf.label_order⟩
 
 /-- conversion between calendars is `at_jdn` of the same day number in the target -/
